@@ -12,8 +12,9 @@ Hypotheses are the documented preconditions only:
   `(w:Int) ∣ 2^32`   rotl/rotr: the width divides 2^32 (true for 8/16/32/64; the `unsigned(s) % digits`
                      reduction of the source is only correct then — see `rotl_needs_dvd_counterexample`);
   `w ≤ 16 ∨ 32 ≤ w`  midpoint: a type narrower than `int` has at most 16 bits (so `a + half` is exact in `int`);
-  `w < 2^31`, `pos < w`  test/set/reset/flip_bit and countr_zero/one: the bit position is smaller than the width
-                     (and the width fits the `static_cast<int>(pos)` of the precondition check);
+  `pos < w`          test/set/reset/flip_bit: the bit position is smaller than the width — exactly the
+                     `TETL_PRECONDITION(pos < static_cast<UInt>(digits))` of the source (`bitPos_pre_iff`; for
+                     `pos ≥ w` the model reports the failed precondition: `bitPos_pre_fails`); no restriction on `w`;
   `w = 16 ∨ 32 ∨ 64` byteswap (plus 8) / `w = 8 ∨ 16 ∨ 32` ntoh, hton: the overloads that exist;
   ipow `t.inR (base ^ e)`: the result is representable (and `t.inR 1`: so is the literal `Int(1)`);
   bit_ceil `x ≤ 2^(w-1)`, gcd/lcm `|m|,|n|` (and the lcm) representable in the common type, abs `x ≠ min`:
@@ -299,6 +300,38 @@ example : midpoint ⟨8, true⟩ 127 (-128) = .ok (Spec.midpoint 127 (-128)) :=
 example : midpoint ⟨64, false⟩ (2^64 - 1) 0 = .ok (Spec.midpoint (2^64 - 1) 0) :=
   (midpoint_eq ⟨64, false⟩ (by decide) (by decide) _ 0 (by decide) (by decide)).1
 
+/-- `midpoint(Ptr a, Ptr b)` (forwards to `midpoint<ptrdiff_t>(0, b - a)`): for two pointers into one
+    array of `len ≤ PTRDIFF_MAX` elements (indices `0 … len`, one past the end included) the pointer
+    difference, the integer midpoint and the final pointer addition are all defined, and the result is
+    the element at the midpoint of the two indices, rounded towards `a`. -/
+theorem midpointPtr_eq (len ia ib : Int) (hlen : len ≤ ptrdiffT.max)
+    (ha0 : 0 ≤ ia) (ha : ia ≤ len) (hb0 : 0 ≤ ib) (hb : ib ≤ len) :
+    midpointPtr len ia ib = .ok (Spec.midpoint ia ib) := by
+  have hmax : ptrdiffT.max = 2^63 - 1 := by decide
+  have hmin : ptrdiffT.min = -2^63 := by decide
+  have hd : ptrdiffT.inR (ib - ia) = true := by rw [inR_iff]; omega
+  have h0 : ptrdiffT.inR 0 = true := by decide
+  unfold midpointPtr
+  simp only [ha0, ha, hb0, hb, decide_true, Bool.and_self, Bool.not_true, Bool.false_eq_true, if_false]
+  rw [arith_ok ptrdiffT (by decide) _ hd]
+  simp only [ok_bind]
+  rw [(midpoint_eq ptrdiffT (by decide) (by decide) 0 (ib - ia) h0 hd).1]
+  simp only [ok_bind]
+  have he : ia + Spec.midpoint 0 (ib - ia) = Spec.midpoint ia ib := by unfold Spec.midpoint; simp
+  rw [he]
+  have hb2 := tdiv2_bounds (ib - ia)
+  have hr : 0 ≤ Spec.midpoint ia ib ∧ Spec.midpoint ia ib ≤ len := by
+    unfold Spec.midpoint
+    by_cases h : 0 ≤ ib - ia
+    · have := hb2.1 h; omega
+    · have := hb2.2 (by omega); omega
+  simp [hr.1, hr.2]
+
+example : midpointPtr 10 8 1 = .ok (Spec.midpoint 8 1) :=
+  midpointPtr_eq 10 8 1 (by decide) (by decide) (by decide) (by decide) (by decide)
+example : midpointPtr (2^63 - 1) 0 (2^63 - 1) = .ok (Spec.midpoint 0 (2^63 - 1)) :=
+  midpointPtr_eq _ 0 _ (by decide) (by decide) (by decide) (by decide) (by decide)
+
 /-! ## sign-aware comparisons, in_range, saturate_cast: every pair of types -/
 
 theorem cmpLess_eq (T U : ITy) (hT : 1 ≤ T.w) (hU : 1 ≤ U.w) (t u : Int)
@@ -421,10 +454,10 @@ example : saturateCast ⟨8, true⟩ ⟨64, false⟩ (2^64 - 1) = .ok (Spec.clam
 /-! ## test_bit, ipow<2> -/
 
 /-- `test_bit(word, pos)` for `pos < digits`: bit `pos` of `word` -/
-theorem testBit_eq (w word pos : Nat) (hw31 : w < 2^31) (hpos : pos < w) :
+theorem testBit_eq_anyw (w word pos : Nat) (hpos : pos < w) :
     testBit w word pos = .ok (Spec.testBit word pos) := by
   unfold testBit Spec.testBit
-  rw [bitPosPre_ok w pos hw31 hpos, oneShl_ok w pos hpos]
+  rw [bitPosPre_ok w pos hpos, oneShl_ok w pos hpos]
   simp only [Bool.not_true, Bool.false_eq_true, if_false, ok_bind]
   have hlt : word &&& 2^pos < 2^w :=
     Nat.lt_of_le_of_lt Nat.and_le_right (Nat.pow_lt_pow_right (by decide) hpos)
@@ -438,7 +471,29 @@ theorem testBit_eq (w word pos : Nat) (hw31 : w < 2^31) (hpos : pos < w) :
   · have : word &&& 2^pos = 0 := by rw [h]; simp [hb]
     simp [hb, this]
 
-example : testBit 64 (2^63 + 5) 63 = .ok (Spec.testBit (2^63 + 5) 63) := testBit_eq 64 _ 63 (by decide) (by decide)
+example : testBit 64 (2^63 + 5) 63 = .ok (Spec.testBit (2^63 + 5) 63) := testBit_eq_anyw 64 _ 63 (by decide)
+
+/-- the precondition check of the single-bit functions, as written in the source
+    (`pos < static_cast<UInt>(digits)`), holds exactly for `pos < w` — for every width -/
+theorem bitPos_pre_iff (w pos : Nat) : bitPosPre w pos = true ↔ pos < w := bitPosPre_iff w pos
+
+/-- outside the domain (`pos ≥ w`, in particular `pos ≥ 2^31` for the 32/64-bit types) every
+    single-bit function stops at its `TETL_PRECONDITION`; the shift is never reached -/
+theorem bitPos_pre_fails (w word pos : Nat) (value : Bool) (hpos : w ≤ pos) :
+    testBit w word pos = .error (.pre "test_bit: pos < digits") ∧
+    setBit w word pos = .error (.pre "set_bit: pos < digits") ∧
+    resetBit w word pos = .error (.pre "reset_bit: pos < digits") ∧
+    flipBit w word pos = .error (.pre "flip_bit: pos < digits") ∧
+    setBitTo w word pos value = .error (.pre "set_bit: pos < digits") := by
+  have h : bitPosPre w pos = false := by
+    cases hb : bitPosPre w pos
+    · rfl
+    · have := (bitPosPre_iff w pos).1 hb; omega
+  unfold testBit setBit resetBit flipBit setBitTo
+  simp [h]
+
+example : testBit 32 1 (2^31) = .error (.pre "test_bit: pos < digits") := (bitPos_pre_fails 32 1 (2^31) false (by decide)).1
+example : flipBit 64 1 (2^64 - 1) = .error (.pre "flip_bit: pos < digits") := (bitPos_pre_fails 64 1 _ false (by decide)).2.2.2.1
 
 /-- `ipow<2>(e)`: `1 << e`, for every exponent whose power is representable -/
 theorem ipow2_eq (t : ITy) (hw : 1 ≤ t.w) (e : Int) (he : 0 ≤ e) (hr : t.inR ((2:Int)^e.toNat) = true) :
@@ -557,6 +612,18 @@ theorem gcd_eq (M N : ITy) (hM : 1 ≤ M.w) (hN : 1 ≤ N.w) (m n : Int)
 example : gcd ⟨32, true⟩ ⟨32, true⟩ 4 (-6) = .ok (Spec.gcd 4 (-6)) := gcd_eq _ _ (by decide) (by decide) 4 (-6) (by decide) (by decide)
 example : gcd ⟨8, false⟩ ⟨32, true⟩ 3 259 = .ok (Spec.gcd 3 259) := gcd_eq _ _ (by decide) (by decide) 3 259 (by decide) (by decide)
 
+/-- the hypothesis of `gcd_eq` is sharp: for `m = INT_MIN` (`|m|` not representable in the common
+    type — outside the precondition of [numeric.ops.gcd]) the unsigned Euclid loop yields `2^31`, whose
+    conversion to the signed return type is `INT_MIN`: a *negative* "gcd", not `Spec.gcd = 2^31` -/
+theorem gcd_int_min_counterexample :
+    gcd i32 i32 (-2^31) 0 = .ok (-2^31) ∧ Spec.gcd (-2^31) 0 = 2^31 ∧
+    gcd ⟨8, true⟩ ⟨8, true⟩ (-128) (-128) = .ok (-128) ∧ Spec.gcd (-128) (-128) = 128 := by
+  refine ⟨?_, ?_, ?_, ?_⟩
+  · unfold gcd; dsimp only; rw [gcdLoop_eq]; congr 1
+  · decide
+  · unfold gcd; dsimp only; rw [gcdLoop_eq]; congr 1
+  · decide
+
 /-- `lcm`: 0 if an argument is 0, otherwise `|m| / gcd * |n|` computed without overflow whenever the result is representable. -/
 theorem lcm_eq (M N : ITy) (hM : 1 ≤ M.w) (hN : 1 ≤ N.w) (m n : Int)
     (hm : (m.natAbs : Int) ≤ (ITy.common M N).max) (hn : (n.natAbs : Int) ≤ (ITy.common M N).max)
@@ -650,18 +717,18 @@ example : countlOne 16 0xFE0F = .ok (Spec.countlOne 16 0xFE0F) := countlOne_eq 1
 
 /-- `countr_zero`: index of the lowest 1 bit among the low `w` bits, `w` if there is none; every
     `test_bit` precondition and shift count on the way is satisfied. -/
-theorem countrZero_eq (w x : Nat) (hw31 : w < 2^31) : countrZero w x = .ok (Spec.countrZero w x) := by
+theorem countrZero_eq_anyw (w x : Nat) : countrZero w x = .ok (Spec.countrZero w x) := by
   unfold countrZero Spec.countrZero
-  rw [ctzLoop_eq w x hw31 (w + 1) w 0 (by omega) (by omega), List.range_eq_range']
+  rw [ctzLoop_eq w x (w + 1) w 0 (by omega) (by omega), List.range_eq_range']
 
-example : countrZero 64 (2^63) = .ok (Spec.countrZero 64 (2^63)) := countrZero_eq 64 _ (by decide)
+example : countrZero 64 (2^63) = .ok (Spec.countrZero 64 (2^63)) := countrZero_eq_anyw 64 _
 
 /-- `countr_one`: index of the lowest 0 bit among the low `w` bits, `w` if there is none. -/
-theorem countrOne_eq (w x : Nat) (hw31 : w < 2^31) : countrOne w x = .ok (Spec.countrOne w x) := by
+theorem countrOne_eq_anyw (w x : Nat) : countrOne w x = .ok (Spec.countrOne w x) := by
   unfold countrOne Spec.countrOne
-  rw [ctoLoop_eq w x hw31 (w + 1) w 0 (by omega) (by omega), List.range_eq_range']
+  rw [ctoLoop_eq w x (w + 1) w 0 (by omega) (by omega), List.range_eq_range']
 
-example : countrOne 8 0xFF = .ok (Spec.countrOne 8 0xFF) := countrOne_eq 8 _ (by decide)
+example : countrOne 8 0xFF = .ok (Spec.countrOne 8 0xFF) := countrOne_eq_anyw 8 _
 
 /-- `has_single_bit` (`popcount(x) == 1`): `x` is a power of two. -/
 theorem hasSingleBit_eq (w x : Nat) (hx : x < 2^w) : hasSingleBit w x = .ok (Spec.hasSingleBit x) := by
@@ -676,49 +743,49 @@ example : hasSingleBit 32 (2^31) = .ok (Spec.hasSingleBit (2^31)) := hasSingleBi
 /-! ## set_bit, reset_bit, flip_bit -/
 
 /-- `set_bit(word, pos)`: `word` with bit `pos` set. -/
-theorem setBit_eq (w word pos : Nat) (hw31 : w < 2^31) (hword : word < 2^w) (hpos : pos < w) :
+theorem setBit_eq_anyw (w word pos : Nat) (hword : word < 2^w) (hpos : pos < w) :
     setBit w word pos = .ok (Spec.setBit word pos) := by
   unfold setBit Spec.setBit
-  rw [bitPosPre_ok w pos hw31 hpos, oneShl_ok w pos hpos, specTestBit_eq]
+  rw [bitPosPre_ok w pos hpos, oneShl_ok w pos hpos, specTestBit_eq]
   simp only [Bool.not_true, Bool.false_eq_true, if_false, ok_bind]
   rw [Nat.mod_eq_of_lt (or_lt w word pos hword hpos)]
   cases hb : word.testBit pos
   · simp [or_two_pow_of_clear word pos hb]
   · simp [or_two_pow_of_set word pos hb]
 
-example : setBit 64 5 63 = .ok (Spec.setBit 5 63) := setBit_eq 64 5 63 (by decide) (by decide) (by decide)
+example : setBit 64 5 63 = .ok (Spec.setBit 5 63) := setBit_eq_anyw 64 5 63 (by decide) (by decide)
 
 /-- `reset_bit(word, pos)`: `word` with bit `pos` cleared. -/
-theorem resetBit_eq (w word pos : Nat) (hw31 : w < 2^31) (hword : word < 2^w) (hpos : pos < w) :
+theorem resetBit_eq_anyw (w word pos : Nat) (hword : word < 2^w) (hpos : pos < w) :
     resetBit w word pos = .ok (Spec.resetBit word pos) := by
   unfold resetBit Spec.resetBit
-  rw [bitPosPre_ok w pos hw31 hpos, oneShl_ok w pos hpos, specTestBit_eq]
+  rw [bitPosPre_ok w pos hpos, oneShl_ok w pos hpos, specTestBit_eq]
   simp only [Bool.not_true, Bool.false_eq_true, if_false, ok_bind]
   rw [Nat.mod_eq_of_lt (and_lt w word _ hword)]
   cases hb : word.testBit pos
   · simp [and_notU_of_clear w word pos hword hpos hb]
   · simp [and_notU_of_set w word pos hword hpos hb]
 
-example : resetBit 8 0xFF 7 = .ok (Spec.resetBit 0xFF 7) := resetBit_eq 8 0xFF 7 (by decide) (by decide) (by decide)
+example : resetBit 8 0xFF 7 = .ok (Spec.resetBit 0xFF 7) := resetBit_eq_anyw 8 0xFF 7 (by decide) (by decide)
 
 /-- `flip_bit(word, pos)`: `word` with bit `pos` inverted. -/
-theorem flipBit_eq (w word pos : Nat) (hw31 : w < 2^31) (hword : word < 2^w) (hpos : pos < w) :
+theorem flipBit_eq_anyw (w word pos : Nat) (hword : word < 2^w) (hpos : pos < w) :
     flipBit w word pos = .ok (Spec.flipBit word pos) := by
   unfold flipBit Spec.flipBit
-  rw [bitPosPre_ok w pos hw31 hpos, oneShl_ok w pos hpos, specTestBit_eq]
+  rw [bitPosPre_ok w pos hpos, oneShl_ok w pos hpos, specTestBit_eq]
   simp only [Bool.not_true, Bool.false_eq_true, if_false, ok_bind]
   rw [Nat.mod_eq_of_lt (xor_lt w word pos hword hpos)]
   cases hb : word.testBit pos
   · simp [xor_two_pow_of_clear word pos hb]
   · simp [xor_two_pow_of_set word pos hb]
 
-example : flipBit 16 0x8001 15 = .ok (Spec.flipBit 0x8001 15) := flipBit_eq 16 _ 15 (by decide) (by decide) (by decide)
+example : flipBit 16 0x8001 15 = .ok (Spec.flipBit 0x8001 15) := flipBit_eq_anyw 16 _ 15 (by decide) (by decide)
 
 /-- `set_bit(word, pos, value)`: bit `pos` set or cleared according to `value`. -/
-theorem setBitTo_eq (w word pos : Nat) (value : Bool) (hw31 : w < 2^31) (hword : word < 2^w) (hpos : pos < w) :
+theorem setBitTo_eq_anyw (w word pos : Nat) (value : Bool) (hword : word < 2^w) (hpos : pos < w) :
     setBitTo w word pos value = .ok (if value then Spec.setBit word pos else Spec.resetBit word pos) := by
   unfold setBitTo Spec.setBit Spec.resetBit
-  rw [bitPosPre_ok w pos hw31 hpos, oneShl_ok w pos hpos, specTestBit_eq]
+  rw [bitPosPre_ok w pos hpos, oneShl_ok w pos hpos, specTestBit_eq]
   have hpw : pos < pw w := Nat.lt_of_lt_of_le hpos (pw_ge w)
   simp only [Bool.not_true, Bool.false_eq_true, if_false, ok_bind, hpw, decide_true]
   rw [boolShl]
@@ -738,9 +805,9 @@ theorem setBitTo_eq (w word pos : Nat) (value : Bool) (hw31 : w < 2^31) (hword :
       simp; omega
 
 example : setBitTo 32 0xFFFF0000 31 false = .ok (Spec.resetBit 0xFFFF0000 31) :=
-  setBitTo_eq 32 _ 31 false (by decide) (by decide) (by decide)
+  setBitTo_eq_anyw 32 _ 31 false (by decide) (by decide)
 example : setBitTo 32 0x0000FFFF 31 true = .ok (Spec.setBit 0x0000FFFF 31) :=
-  setBitTo_eq 32 _ 31 true (by decide) (by decide) (by decide)
+  setBitTo_eq_anyw 32 _ 31 true (by decide) (by decide)
 
 /-! ## byteswap, ntoh, hton: byte reversal -/
 
@@ -827,5 +894,26 @@ theorem ipow_eq (t : ITy) (base e : Int) (h1 : t.inR 1 = true) (hb : t.inR base 
 
 example : ipow ⟨8, true⟩ (-2) 7 = .ok (Spec.ipow (-2) 7) := ipow_eq ⟨8, true⟩ (-2) 7 (by decide) (by decide) (by decide)
 example : ipow ⟨64, false⟩ 3 40 = .ok (Spec.ipow 3 40) := ipow_eq ⟨64, false⟩ 3 40 (by decide) (by decide) (by decide)
+
+/-! ## the bit-position theorems with the width hypothesis of the first version
+
+`testBit_eq … countrOne_eq` were first proved for `w < 2^31` (the model then followed a source that compared
+`static_cast<int>(pos) < digits`).  The source and the model now compare in `UInt`, and the `…_anyw` theorems above hold for
+every width.  The original statements are kept under their names for the modules that cite them with the width argument
+(TetlProofs/C02): each is the `…_anyw` theorem with the hypothesis dropped. -/
+
+theorem testBit_eq (w word pos : Nat) (_hw31 : w < 2^31) (hpos : pos < w) :
+    testBit w word pos = .ok (Spec.testBit word pos) := testBit_eq_anyw w word pos hpos
+theorem countrZero_eq (w x : Nat) (_hw31 : w < 2^31) : countrZero w x = .ok (Spec.countrZero w x) := countrZero_eq_anyw w x
+theorem countrOne_eq (w x : Nat) (_hw31 : w < 2^31) : countrOne w x = .ok (Spec.countrOne w x) := countrOne_eq_anyw w x
+theorem setBit_eq (w word pos : Nat) (_hw31 : w < 2^31) (hword : word < 2^w) (hpos : pos < w) :
+    setBit w word pos = .ok (Spec.setBit word pos) := setBit_eq_anyw w word pos hword hpos
+theorem resetBit_eq (w word pos : Nat) (_hw31 : w < 2^31) (hword : word < 2^w) (hpos : pos < w) :
+    resetBit w word pos = .ok (Spec.resetBit word pos) := resetBit_eq_anyw w word pos hword hpos
+theorem flipBit_eq (w word pos : Nat) (_hw31 : w < 2^31) (hword : word < 2^w) (hpos : pos < w) :
+    flipBit w word pos = .ok (Spec.flipBit word pos) := flipBit_eq_anyw w word pos hword hpos
+theorem setBitTo_eq (w word pos : Nat) (value : Bool) (_hw31 : w < 2^31) (hword : word < 2^w) (hpos : pos < w) :
+    setBitTo w word pos value = .ok (if value then Spec.setBit word pos else Spec.resetBit word pos) :=
+  setBitTo_eq_anyw w word pos value hword hpos
 
 end Tetl.C14.Props
